@@ -42,8 +42,8 @@ Proof.
   destruct (ser_arrive_spec s) as (A1 & A2 & A3 & A4). repeat split; auto.
 Qed.
 
-Lemma ser_read_spec k s s' b sil :
-  ser_read k s = (s', b, sil) ->
+Lemma ser_read_spec tk k s s' b sil :
+  ser_read tk k s = (s', b, sil) ->
   is_open s' = is_open s /\ buf s' = buf s /\ (len b <= k)%N /\
   b ++ pend s' ++ stream_of (orc s') = pend s ++ stream_of (orc s) /\
   ((k <= len (pend s))%N -> len b = k).
@@ -61,8 +61,8 @@ Qed.
 
 (* ---- read ---------------------------------------------------------------------------------- *)
 
-Lemma ser_read_loop_spec : forall fuel n tmo ts s s' r,
-  (len (buf s) < n)%N -> ser_read_loop fuel n tmo ts s = (s', r) ->
+Lemma ser_read_loop_spec sc : forall fuel n tmo ts s s' r,
+  (len (buf s) < n)%N -> ser_read_loop sc fuel n tmo ts s = (s', r) ->
   is_open s' = is_open s /\ smoved s s' (ret r) /\
   (forall b, r = RBytes b -> len b = n) /\
   (r = RTimeout -> (len (buf s') <= n)%N) /\
@@ -70,33 +70,43 @@ Lemma ser_read_loop_spec : forall fuel n tmo ts s s' r,
 Proof.
   induction fuel as [|f IH]; intros n tmo ts s s' r L H; cbn [ser_read_loop] in H.
   - inversion H; subst. repeat split; try congruence. apply smoved_refl; reflexivity.
-  - destruct (ser_read (n - len (buf s)) s) as [[s1 b] sil] eqn:Er.
+  - destruct (ser_read (tick sc) (n - len (buf s)) s) as [[s1 b] sil] eqn:Er.
     apply ser_read_spec in Er as (Eo & Eb & Elen & Es & _). sim.
     assert (M2 : smoved s (set_buf s1 (buf s1 ++ b)) []).
     { exists b. sim. rewrite Eb. split; [reflexivity | exact Es]. }
     assert (L2 : (len (buf s1 ++ b) <= n)%N) by (rewrite Eb, len_app; lia).
+    assert (TMO : (set_buf s1 (buf s1 ++ b), RTimeout) = (s', r) ->
+      is_open s' = is_open s /\ smoved s s' (ret r) /\
+      (forall b, r = RBytes b -> len b = n) /\ (r = RTimeout -> (len (buf s') <= n)%N) /\
+      r <> RNone /\ r <> RInvalid /\ r <> REof /\ r <> RRuntime /\ r <> RValue).
+    { intros HH. inversion HH; subst; sim. repeat split; try congruence; auto. }
     destruct (n <=? len (buf s1 ++ b))%N eqn:En.
-    { inversion H; subst; sim. repeat split; try congruence; auto.
-      - exists b. sim. cbn [ret]. rewrite Eb, app_nil_r. split; [reflexivity | exact Es].
-      - intros b0 [= <-]. lia. }
-    assert (REC : forall s'' r'', ser_read_loop f n tmo ts (set_buf s1 (buf s1 ++ b)) = (s'', r'') ->
+    { assert (RET : (set_buf (set_buf s1 (buf s1 ++ b)) [], RBytes (buf s1 ++ b)) = (s', r) ->
+        is_open s' = is_open s /\ smoved s s' (ret r) /\
+        (forall b, r = RBytes b -> len b = n) /\ (r = RTimeout -> (len (buf s') <= n)%N) /\
+        r <> RNone /\ r <> RInvalid /\ r <> REof /\ r <> RRuntime /\ r <> RValue).
+      { intros HH. inversion HH; subst; sim. repeat split; try congruence; auto.
+        - exists b. sim. cbn [ret]. rewrite Eb, app_nil_r. split; [reflexivity | exact Es].
+        - intros b0 [= <-]. lia. }
+      destruct (deadline (spol sc) tmo ts (clk s1)); [apply RET, H | | apply RET, H].
+      destruct (late_read (spol sc)); [apply RET, H | apply TMO, H]. }
+    assert (REC : forall s'' r'', ser_read_loop sc f n tmo ts (set_buf s1 (buf s1 ++ b)) = (s'', r'') ->
       is_open s'' = is_open s /\ smoved s s'' (ret r'') /\
       (forall b, r'' = RBytes b -> len b = n) /\ (r'' = RTimeout -> (len (buf s'') <= n)%N) /\
       r'' <> RNone /\ r'' <> RInvalid /\ r'' <> REof /\ r'' <> RRuntime /\ r'' <> RValue).
     { intros s'' r'' HH. apply IH in HH; [|sim; lia]. sim.
       destruct HH as (Ho' & Hm & Hrest). split; [congruence|]. split; [|exact Hrest].
       apply (smoved_recv s (set_buf s1 (buf s1 ++ b)) s'' b); sim; [now rewrite Eb | exact Es | exact Hm]. }
-    destruct tmo as [t|].
-    + destruct (ts + t - clk s1 <=? 0)%Z.
-      * inversion H; subst; sim. repeat split; try congruence; auto.
-      * apply REC, H.
+    destruct (deadline (spol sc) tmo ts (clk s1)).
     + destruct sil.
       * inversion H; subst; sim. repeat split; try congruence; auto.
       * apply REC, H.
+    + apply TMO, H.
+    + apply REC, H.
 Qed.
 
-Lemma ser_read_op_spec n tmo s s' r :
-  ser_read_op n tmo s = (s', r) ->
+Lemma ser_read_op_spec sc n tmo s s' r :
+  ser_read_op sc n tmo s = (s', r) ->
   is_open s' = is_open s /\ smoved s s' (ret r) /\
   (forall b, r = RBytes b -> len b = n) /\
   (r = RTimeout -> (len (buf s') <= n)%N) /\
@@ -113,7 +123,7 @@ Proof.
   - destruct (ser_in_waiting s) as [s1 w] eqn:Ew.
     apply ser_in_waiting_spec in Ew as (W1 & W2 & W3 & W4).
     destruct (n - len (buf s) <=? w)%N eqn:Ek.
-    + destruct (ser_read (n - len (buf s)) s1) as [[s2 b] sil] eqn:Er.
+    + destruct (ser_read (tick sc) (n - len (buf s)) s1) as [[s2 b] sil] eqn:Er.
       apply ser_read_spec in Er as (R1 & R2 & R3 & R4 & R5). sim.
       assert (Hb : len b = (n - len (buf s))%N) by (apply R5; lia).
       assert (Es : b ++ pend s2 ++ stream_of (orc s2) = pend s ++ stream_of (orc s)) by congruence.
@@ -131,21 +141,32 @@ Qed.
 
 (* ---- read_until ---------------------------------------------------------------------------- *)
 
-Lemma ser_ru_loop_spec term : forall fuel tmo ts tr s s' r,
-  (forall i, ~ occ term (buf s) i) -> ser_ru_loop fuel term tmo ts tr s = (s', r) ->
+Lemma ser_ru_loop_spec sc term : forall fuel tmo ts tr s s' r,
+  (forall i, ~ occ term (buf s) i) -> ser_ru_loop sc fuel term tmo ts tr s = (s', r) ->
   is_open s' = is_open s /\ smoved s s' (ret r) /\
   (forall b, r = RBytes b -> shortest term b) /\
   r <> RNone /\ r <> RInvalid /\ r <> REof /\ r <> RRuntime /\ r <> RValue.
 Proof.
   induction fuel as [|f IH]; intros tmo ts tr s s' r NO H; cbn [ser_ru_loop] in H.
   - inversion H; subst. repeat split; try congruence. apply smoved_refl; reflexivity.
-  - destruct (tmo_nonpos tr).
+  - destruct (tr_passed (spol sc) tr).
     { inversion H; subst. repeat split; try congruence. apply smoved_refl; reflexivity. }
-    destruct (ser_read 1 s) as [[s1 b] sil] eqn:Er.
+    destruct (ser_read (tick sc) 1 s) as [[s1 b] sil] eqn:Er.
     apply ser_read_spec in Er as (Eo & Eb & Elen & Es & _). sim.
     assert (Lb : length b <= 1) by (unfold len in Elen; lia).
     destruct (endswith (buf s1 ++ b) term) eqn:Ee.
-    { inversion H; subst; sim. repeat split; try congruence.
+    { assert (TMO : (set_buf s1 (buf s1 ++ b), RTimeout) = (s', r) ->
+        is_open s' = is_open s /\ smoved s s' (ret r) /\ (forall b, r = RBytes b -> shortest term b) /\
+        r <> RNone /\ r <> RInvalid /\ r <> REof /\ r <> RRuntime /\ r <> RValue).
+      { intros HH. inversion HH; subst; sim. repeat split; try congruence.
+        exists b. sim. cbn [ret app]. rewrite Eb. split; [reflexivity | exact Es]. }
+      assert (RET : (set_buf (set_buf s1 (buf s1 ++ b)) [], RBytes (buf s1 ++ b)) = (s', r) ->
+        is_open s' = is_open s /\ smoved s s' (ret r) /\ (forall b, r = RBytes b -> shortest term b) /\
+        r <> RNone /\ r <> RInvalid /\ r <> REof /\ r <> RRuntime /\ r <> RValue);
+      [| destruct (deadline (spol sc) tmo ts (clk s1)); [apply RET, H | | apply RET, H];
+         destruct (late_ru (spol sc)); [apply RET, H | apply TMO, H] ].
+      intros HH. clear H TMO.
+      inversion HH; subst; sim. repeat split; try congruence.
       - exists b. sim. cbn [ret]. rewrite Eb, app_nil_r. split; [reflexivity | exact Es].
       - intros b0 [= <-]. apply endswith_spec in Ee as [a Ea]. exists a. split; [exact Ea|].
         intros i Hi. pose proof (occ_bound _ _ _ Hi) as B.
@@ -164,7 +185,7 @@ Proof.
             destruct bb; [reflexivity | cbn [length] in E; lia]. }
           subst bb. rewrite app_nil_r in E. exists a. exact E. }
         congruence. }
-    assert (REC : forall tr' s'' r'', ser_ru_loop f term tmo ts tr' (set_buf s1 (buf s1 ++ b)) = (s'', r'') ->
+    assert (REC : forall tr' s'' r'', ser_ru_loop sc f term tmo ts tr' (set_buf s1 (buf s1 ++ b)) = (s'', r'') ->
       is_open s'' = is_open s /\ smoved s s'' (ret r'') /\
       (forall b, r'' = RBytes b -> shortest term b) /\
       r'' <> RNone /\ r'' <> RInvalid /\ r'' <> REof /\ r'' <> RRuntime /\ r'' <> RValue).
@@ -179,26 +200,31 @@ Proof.
       * eapply REC, H.
 Qed.
 
-Lemma ser_read_until_spec term tmo s s' r :
-  ser_read_until term tmo s = (s', r) ->
+Lemma ser_read_until_spec sc term tmo s s' r :
+  ser_read_until sc term tmo s = (s', r) ->
   is_open s' = is_open s /\ smoved s s' (ret r) /\
   (forall b, r = RBytes b -> shortest term b) /\
-  r <> RNone /\ r <> REof /\ r <> RRuntime /\ r <> RValue /\
-  (is_open s = false -> s' = s /\ r = RInvalid).
+  r <> RNone /\ r <> REof /\ r <> RRuntime /\ r <> RValue.
 Proof.
   unfold ser_read_until. intros H. destruct (is_open s) eqn:Eo; cbn [negb] in H.
-  2:{ inversion H; subst. repeat split; try congruence. apply smoved_refl; reflexivity. }
+  2:{ destruct (ru_chk_first (spol sc)).
+      { inversion H; subst. repeat split; try congruence. apply smoved_refl; reflexivity. }
+      destruct (cut_term term s) as [[sc0 rc]|] eqn:Ec.
+      - inversion H; subst sc0 rc. apply cut_term_Some in Ec as (bb & rest & -> & Hsh & Hcat & ->). sim.
+        repeat split; try congruence.
+        exists []. sim. cbn [ret]. rewrite app_nil_r. split; [now symmetry | reflexivity].
+      - inversion H; subst. repeat split; try congruence. apply smoved_refl; reflexivity. }
   set (s1 := match find term (buf s) with
              | Some _ => s
              | None => let '(sa, w) := ser_in_waiting s in
-                       let '(sb, b, _) := ser_read w sa in set_buf sb (buf sb ++ b)
+                       let '(sb, b, _) := ser_read (tick sc) w sa in set_buf sb (buf sb ++ b)
              end) in *.
   assert (P1 : is_open s1 = is_open s /\ smoved s s1 []).
   { subst s1. destruct (find term (buf s)).
     - split; [reflexivity | apply smoved_refl; reflexivity].
     - destruct (ser_in_waiting s) as [sa w] eqn:Ew.
       apply ser_in_waiting_spec in Ew as (W1 & W2 & W3 & W4).
-      destruct (ser_read w sa) as [[sb b] sil] eqn:Er.
+      destruct (ser_read (tick sc) w sa) as [[sb b] sil] eqn:Er.
       apply ser_read_spec in Er as (R1 & R2 & R3 & R4 & R5). sim. split; [congruence|].
       exists b. sim. rewrite R2, W2. split; [reflexivity | congruence]. }
   destruct P1 as [O1 M1].
@@ -217,14 +243,14 @@ Qed.
 
 (* ---- read_until_timeout, discard_read, open ------------------------------------------------ *)
 
-Lemma ser_rut_spec n tmo s s' r :
-  ser_rut n tmo s = (s', r) ->
+Lemma ser_rut_spec sc n tmo s s' r :
+  ser_rut sc n tmo s = (s', r) ->
   is_open s' = is_open s /\ smoved s s' (ret r) /\
   (forall b, r = RBytes b -> (len b <= n)%N) /\
   r <> RNone /\ r <> REof /\ r <> RRuntime /\ r <> RValue /\ r <> RTimeout /\
   (is_open s = false -> s' = s /\ r = RInvalid).
 Proof.
-  unfold ser_rut. intros H. destruct (ser_read_op n tmo s) as [s1 r1] eqn:Er.
+  unfold ser_rut. intros H. destruct (ser_read_op sc n tmo s) as [s1 r1] eqn:Er.
   apply ser_read_op_spec in Er as (H1 & H2 & H3 & H4 & H5 & H6 & H7 & H8 & H9).
   destruct r1; inversion H; subst; sim; repeat split; try congruence; auto.
   all: try match goal with Hc : is_open _ = false |- _ => destruct (H9 Hc) as [Hx Hy]; congruence end.
